@@ -75,6 +75,11 @@ func ruleDockerMatch(r *Run) {
 			}
 		}
 	}
+	// the decision written out in containerLabels.Match itself (no separate deciding function)
+	inlineMode := false
+	if fn == nil && mfAnchor != nil && pickTag(mfAnchor, T, consts["OpEq"]) != nil {
+		fn, inlineMode = mfAnchor, true
+	}
 	anchor := r.Ob("ANCHOR", "dockerlog.match", "anchor function resolves")
 	anchor.Trivial = true
 	if fn == nil {
@@ -96,6 +101,36 @@ func ruleDockerMatch(r *Run) {
 			m = prm
 		} else if isStringType(prm.Type()) {
 			s = prm
+		}
+	}
+	if inlineMode {
+		// the matcher under test is the ranged element the operator is read from
+		if _, base, ok := loadOfField(tag); ok {
+			m = base
+		}
+	}
+	// inline form: the If in the matcher loop that leaves it (the verdict on one matcher) and the
+	// edge taken when the matcher was rejected
+	var gate *ssa.If
+	gateAcceptOnTrue := true
+	var gateLoop *rangeLoop
+	if inlineMode {
+		for _, l := range rangeIndexLoops(fn) {
+			if len(fn.Params) == 2 && l.X == ssa.Value(fn.Params[1]) {
+				gateLoop = l
+			}
+		}
+		if gateLoop != nil {
+			for _, ex := range gateLoop.earlyExits() {
+				if ifi, ok := ex[0].Instrs[len(ex[0].Instrs)-1].(*ssa.If); ok && gate == nil {
+					gate = ifi
+					gateAcceptOnTrue = ex[0].Succs[1] == ex[1]
+				}
+			}
+		}
+		if gate == nil {
+			r.Ob("CH-POL", "dockerlog.match", "dispatch on the matcher operator").Undecide(r.pos(fn.Pos()), "the matcher loop of Match has no early exit that carries the verdict on one matcher")
+			return
 		}
 	}
 	if s == nil {
@@ -197,8 +232,63 @@ func ruleDockerMatch(r *Run) {
 		o.Trivial = !listed
 		set := map[string]bool{}
 		for _, e := range cr.Ends {
+			if inlineMode && e.Cut {
+				continue
+			}
 			if len(e.Results) != 1 {
 				set["?"] = true
+				continue
+			}
+			if inlineMode {
+				// the verdict on the last matcher visited on this path: the gate's condition
+				visited := false
+				for _, b := range e.State.trail {
+					if b == gate.Block() {
+						visited = true
+					}
+				}
+				if !visited {
+					continue
+				}
+				w, st := cr.W, e.State
+				res = func(v ssa.Value) ssa.Value { return unspill(w.evalVal(st, unspill(v)).V) }
+				evalBool = func(v ssa.Value) (bool, bool) {
+					c, ok := w.eval(st, v)
+					if !ok || c.Kind() != constant.Bool {
+						return false, false
+					}
+					return constant.BoolVal(c), true
+				}
+				// the condition as computed on this path (not as decided by the branch taken):
+				// phis are resolved to the incoming value the path chose
+				gc, flip := gate.Cond, !gateAcceptOnTrue
+				for i := 0; i < 8; i++ {
+					if u, ok := gc.(*ssa.UnOp); ok && u.Op == token.NOT {
+						gc, flip = u.X, !flip
+						continue
+					}
+					if ph, ok := gc.(*ssa.Phi); ok {
+						if src, ok := st.phiSrc[ph]; ok {
+							gc = src
+							continue
+						}
+					}
+					break
+				}
+				out := classify(gc)
+				if flip {
+					switch {
+					case out == "true":
+						out = "false"
+					case out == "false":
+						out = "true"
+					case strings.HasPrefix(out, "not "):
+						out = strings.TrimPrefix(out, "not ")
+					default:
+						out = "not " + out
+					}
+				}
+				set[out] = true
 				continue
 			}
 			if e.Results[0].Known {
@@ -464,6 +554,54 @@ func ruleDockerMatch(r *Run) {
 		}
 		if good {
 			om.OK("!slices.ContainsFunc(matchers, m -> !match(m, labels[m.Label])) with a plain lookup").At(r.pos(mf.Pos()))
+		}
+		return
+	}
+	if inlineMode {
+		// the decision is written out in the loop: the verdict is the gate's condition (decided per
+		// operator above); here: plain lookup, ranged element, exits only at the gate
+		checkLookup(innerLookup, mf.Pos())
+		elemOK := false
+		if al, ok := m.(*ssa.Alloc); ok {
+			for _, st := range storesTo(al) {
+				if u, ok := st.Val.(*ssa.UnOp); ok && isIndexOf(u.X, loop) {
+					elemOK = true
+				}
+			}
+		} else if u, ok := m.(*ssa.UnOp); ok && isIndexOf(u.X, loop) {
+			elemOK = true
+		} else if isIndexOf(m, loop) {
+			elemOK = true
+		}
+		if !elemOK {
+			good = false
+			om.Fail(r.pos(mf.Pos()), "the operator dispatch is not applied to the ranged matcher")
+		}
+		for _, ex := range loop.earlyExits() {
+			if ex[0] != gate.Block() {
+				good = false
+				om.Fail(r.pos(termPos(ex[0])), "the matcher loop is left early at a point other than the verdict on the current matcher")
+			}
+		}
+		for _, ret := range returnsOf(mf) {
+			for _, lv := range phiLeaves(ret.Results[0]) {
+				inLoopExit := false
+				for _, ex := range loop.earlyExits() {
+					if ex[1] == ret.Block() || ex[1].Dominates(ret.Block()) {
+						inLoopExit = true
+					}
+				}
+				switch {
+				case isConstBool(lv, false) && inLoopExit:
+				case isConstBool(lv, true) && !inLoopExit && (loop.Done == ret.Block() || loop.Done.Dominates(ret.Block())):
+				default:
+					good = false
+					om.Fail(r.pos(ret.Pos()), "returns %s here (early exit=%v)", describe(lv, 0), inLoopExit)
+				}
+			}
+		}
+		if good {
+			om.OK("for each matcher: the operator's verdict on labels[matcher.Label] (plain lookup), written out in the loop; false on first reject, true after all").At(r.pos(mf.Pos()))
 		}
 		return
 	}
